@@ -1,6 +1,6 @@
 (* C11 - the property theorems, nothing else.  Each is closed by [exact] of a lemma from
    Lemmas.v and followed by Print Assumptions. *)
-From CfdmV Require Import Common.Base Tables.FlattenRules C11.Model C11.Lemmas.
+From CfdmV Require Import Common.Base Tables.FlattenRules C11.Model C11.Lemmas C11.Deep.
 
 (* ABSOLUTE.  A reference that starts with "/" is taken as it stands, whatever the rule, the
    referring group and the strictness. *)
@@ -162,18 +162,199 @@ Print Assumptions C11_rules_total.
 
 (* UN-FLATTENING.  From one entry "flattened name: absolute path" of the mapping attributes the
    reader recovers exactly the group path, the name it records on the construct (the absolute
-   path, or the bare name in the root group) and the basename - for variables and (repaired
-   code, F11c) for dimensions. *)
+   path, or the bare name in the root group) and the basename - for variables and for
+   dimensions, and whatever the flattened name is (plain, hashed, or with a counter: the repaired
+   reader, C11-fix2-1, takes everything from the absolute path; in the root group the flattened
+   name is the name). *)
 Theorem C11_unflatten :
-  forall hash p n, free slash (p ++ [n]) -> short p n ->
-  unflatten_var (flat_name hash p n) (pathname p n) =
-    (p, match p with [] => n | _ => pathname p n end, n).
+  forall flat p n, free slash (p ++ [n]) ->
+  unflatten_var flat (pathname p n) =
+    (p, match p with [] => n | _ => pathname p n end, match p with [] => flat | _ => n end).
 Proof. exact unflatten_var_spec. Qed.
 Print Assumptions C11_unflatten.
 
 Theorem C11_unflatten_dimension :
-  forall hash p n, free slash (p ++ [n]) -> short p n ->
-  unflatten_dim_gen true (flat_name hash p n) (pathname p n) =
-    (p, match p with [] => n | _ => pathname p n end, n).
+  forall flat p n, free slash (p ++ [n]) ->
+  unflatten_dim_gen true flat (pathname p n) =
+    (p, match p with [] => n | _ => pathname p n end, match p with [] => flat | _ => n end).
 Proof. exact unflatten_dim_spec. Qed.
 Print Assumptions C11_unflatten_dimension.
+
+(* ====================================================================== deepening pass *)
+
+(* LATERAL, completeness and fuel.  The search for a coordinate variable reports nothing only if
+   nothing is there: no group up to the root holds the name or is a local apex, or the apex was
+   reached and no group anywhere below it (any depth) holds the name ... *)
+Theorem C11_lateral_complete :
+  forall root sd ref rp,
+  find_group root (rev rp) <> None ->
+  prox root sd ref rp false true = None ->
+  (forall j, ~ holds root sd ref (skipn j rp) /\ ~ apexdim root ref (skipn j rp))
+  \/
+  (exists k g, find_group root (rev (skipn k rp)) = Some g /\ mem_str ref (gdims g) = true /\
+     (forall j, j <= k -> ~ holds root sd ref (skipn j rp)) /\
+     (forall j, j < k -> ~ apexdim root ref (skipn j rp)) /\
+     forall comps g', comps <> [] -> find_group g comps = Some g' -> has_elt sd g' ref = false).
+Proof. exact prox_lateral_none. Qed.
+Print Assumptions C11_lateral_complete.
+
+(* ... because the fuel [height root] of the descent is sufficient: with it the descent from any
+   group of the tree is exhaustive, and more fuel never changes the answer (the out-of-fuel
+   branch of the model is unreachable). *)
+Theorem C11_lateral_fuel :
+  forall root p g sd ref,
+  find_group root p = Some g ->
+  (forall extra, bfs (height root + extra) sd ref (next_level [(p, g)]) =
+                 bfs (height root) sd ref (next_level [(p, g)])) /\
+  (bfs (height root) sd ref (next_level [(p, g)]) = None ->
+   forall comps g', comps <> [] -> find_group g comps = Some g' -> has_elt sd g' ref = false).
+Proof.
+  intros root p g sd ref F. split.
+  - intros extra. exact (lateral_fuel root p g sd ref extra F).
+  - exact (lateral_complete root p g sd ref F).
+Qed.
+Print Assumptions C11_lateral_fuel.
+
+(* THE READER'S COORDINATE VARIABLE (_find_coordinate_variable as repaired by 5e5cf7d), in a
+   dataset with groups.  What is found is (a) the candidate nearest to the data variable on its
+   ancestor path; or, when no candidate lies on that path, (b) the dimension's own name if the
+   variable beside the dimension spans it (it is then the data variable itself), else (c) the
+   candidate nearest to the dimension's group, provided no other candidate is as near. *)
+Theorem C11_coordinate_variable :
+  forall hash vars field dim c,
+  find_coord hash true vars field dim = Some c ->
+  (exists v, candidate hash vars field dim v /\ c = vid v /\ is_prefix (v_groups v) (fst field) /\
+     forall w, candidate hash vars field dim w -> is_prefix (v_groups w) (fst field) -> glen w <= glen v)
+  \/
+  ((forall w, candidate hash vars field dim w -> ~ is_prefix (v_groups w) (fst field)) /\
+   ((own_b vars dim = true /\ c = dim)
+    \/
+    (own_b vars dim = false /\
+     exists v, lateral_cand hash vars field dim v /\ c = vid v /\
+       (forall w, lateral_cand hash vars field dim w -> glen v <= glen w) /\
+       (forall w, lateral_cand hash vars field dim w -> glen w = glen v -> w = v)))).
+Proof. exact find_coord_sound. Qed.
+Print Assumptions C11_coordinate_variable.
+
+(* Nothing is found only when no candidate lies on the ancestor path, the shortcut does not
+   apply, and there is no candidate at all or two different ones are equally near to the
+   dimension's group (which CF 2.7 leaves undefined); a candidate on the ancestor path always
+   makes the search succeed. *)
+Theorem C11_coordinate_variable_none :
+  forall hash vars field dim,
+  NoDup vars ->
+  find_coord hash true vars field dim = None ->
+  (forall w, candidate hash vars field dim w -> ~ is_prefix (v_groups w) (fst field)) /\
+  own_b vars dim = false /\
+  ((forall w, ~ candidate hash vars field dim w)
+   \/
+   exists v w, v <> w /\ lateral_cand hash vars field dim v /\ lateral_cand hash vars field dim w /\
+     glen v = glen w /\ forall u, lateral_cand hash vars field dim u -> glen v <= glen u).
+Proof. exact find_coord_none. Qed.
+Print Assumptions C11_coordinate_variable_none.
+
+Theorem C11_coordinate_variable_proximal_complete :
+  forall hash vars field dim w,
+  candidate hash vars field dim w -> is_prefix (v_groups w) (fst field) ->
+  find_coord hash true vars field dim <> None.
+Proof. exact find_coord_proximal_complete. Qed.
+Print Assumptions C11_coordinate_variable_proximal_complete.
+
+(* the candidates are the variables named like the dimension, spanning exactly it, in its group
+   or below (the basename test is a test of names, in every regime of the flattened names) *)
+Theorem C11_coordinate_variable_names :
+  forall hash vars field dim v,
+  free slash (v_groups v ++ [v_name v]) -> free slash (fst dim ++ [snd dim]) ->
+  (candidate hash vars field dim v <->
+   In v vars /\ vid v <> field /\ v_dims v = [dim] /\ v_name v = snd dim /\ is_prefix (fst dim) (v_groups v)).
+Proof. exact candidate_names. Qed.
+Print Assumptions C11_coordinate_variable_names.
+
+(* a file as cfdm's writer makes it (the coordinate variable beside its dimension, no other
+   candidate): it is found from every group below *)
+Theorem C11_coordinate_variable_writer_made :
+  forall hash vars field dim v,
+  candidate hash vars field dim v -> vid v = dim -> is_prefix (fst dim) (fst field) ->
+  (forall w, candidate hash vars field dim w -> w = v) ->
+  find_coord hash true vars field dim = Some dim.
+Proof. exact find_coord_writer_made. Qed.
+Print Assumptions C11_coordinate_variable_writer_made.
+
+(* FLATTENED NAMES, every regime (also >= 256 characters, where the group path or the whole name
+   is replaced by a digest).  The digest function is a Section variable; assumed of it: it is
+   injective and its values are names without "__" that do not end in "_" (hexadecimal).  Then
+   the proposed names are injective provided no group and no variable is named like a digest
+   (exact: a root variable, or a single group, named like the digest of another element). *)
+Theorem C11_flat_injective_all :
+  forall hash : str -> str,
+  (forall a b, hash a = hash b -> a = b) -> (forall a, good (hash a)) ->
+  forall p1 n1 p2 n2,
+  Forall good (p1 ++ [n1]) -> Forall good (p2 ++ [n2]) ->
+  free slash p1 -> free slash p2 ->
+  no_digest hash (p1 ++ [n1]) -> no_digest hash (p2 ++ [n2]) ->
+  flat_name hash p1 n1 = flat_name hash p2 n2 -> p1 = p2 /\ n1 = n2.
+Proof. exact flat_injective_all. Qed.
+Print Assumptions C11_flat_injective_all.
+
+(* the two assumptions on the digest are satisfiable together *)
+Theorem C11_flat_injective_all_nonvacuous :
+  (forall a b, enc a = enc b -> a = b) /\ (forall a, good (enc a)).
+Proof. split; [exact enc_inj|exact enc_good]. Qed.
+Print Assumptions C11_flat_injective_all_nonvacuous.
+
+(* ... and whatever the names are (repair C11-fix2-1: a clashing name gets a counter), the names
+   actually used in the flattened dataset are pairwise distinct and there is one entry per
+   element: F11b is closed. *)
+Theorem C11_flat_names_distinct :
+  forall hash root,
+  NoDup (map snd (var_map_u hash root)) /\ NoDup (map snd (dim_map_u hash root)) /\
+  map fst (var_map_u hash root) = map fst (var_map hash [] root) /\
+  map fst (dim_map_u hash root) = map fst (dim_map hash [] root).
+Proof. exact flat_names_distinct. Qed.
+Print Assumptions C11_flat_names_distinct.
+
+(* MEANING (the modelled fragment of "grouped read == flat read == original"): the name cfdm
+   records for a variable and writes as a reference to it is, in the grouped file, resolved and
+   renamed to the entry of the mapping attribute that stands for exactly that variable, from
+   which the reader recovers the same group, recorded name and basename; with group=False the
+   same name is reduced to its basename in the root group; written again with group=True it
+   returns to its group.  See Deep.v for the statement in words. *)
+Theorem C11_meaning :
+  forall hash root rl strict rp coords p n g,
+  var_rule rl ->
+  find_group root p = Some g -> mem_str n (map fst (gvars g)) = true ->
+  free slash (p ++ [n]) -> n <> [] ->
+  substrb not_found (pathname p n) = false ->
+  (p = [] -> unshadowed root (r_apex rl) rp n) ->
+  (exists f,
+     flatten_ref hash root rl strict rp coords (name_of p n) = RStr f /\
+     In (pathname p n, f) (var_map_u hash root) /\
+     (tree_okb root = true -> NoDup (map snd (var_map hash [] root)) -> f = flat_name hash p n) /\
+     forall x, p <> [] \/ x = n -> unflatten_var x (pathname p n) = (p, name_of p n, n)) /\
+  remove_group_structure (name_of p n) = n /\
+  parent_group_path false (name_of p n) = Some [] /\
+  parent_group_path true (name_of p n) = Some p.
+Proof. exact meaning. Qed.
+Print Assumptions C11_meaning.
+
+(* Without the guard [unshadowed] (new open finding variable-shadowed): the bare name written
+   for a root-group variable is captured by a same-named variable in a group between. *)
+Theorem C11_meaning_shadowed_refuted :
+  exists rl,
+  var_rule rl /\ lookup_rules "coordinates" flattening_rules_table = Some rl /\
+  tree_okb shadow_tree = true /\ mem_str (s "aux") (map fst (gvars shadow_tree)) = true /\
+  flatten_ref (fun x => x) shadow_tree rl false [s "g2"; s "g1"] None (name_of [] (s "aux"))
+    = RStr (flat_name (fun x => x) [s "g1"] (s "aux")).
+Proof. exact meaning_shadowed. Qed.
+Print Assumptions C11_meaning_shadowed_refuted.
+
+(* THE WRITER REFUSES HIDDEN DIMENSIONS (repair C11-fix2-2, closes F11f): the second check -
+   no group from the variable's group up to the dimension's group defines a dimension of that
+   basename - holds exactly when netCDF binds the basename to the intended dimension. *)
+Theorem C11_writer_refuses_hidden :
+  forall root gd n g0 rr,
+  find_group root gd = Some g0 -> mem_str n (gdims g0) = true ->
+  find_group root (rev (rr ++ rev gd)) <> None ->
+  (no_hiding root (rr ++ rev gd) (length rr) n = true <-> nc_lookup_dim root (rr ++ rev gd) n = Some gd).
+Proof. exact no_hiding_exact. Qed.
+Print Assumptions C11_writer_refuses_hidden.
